@@ -44,11 +44,19 @@ VARIANTS = {
     "mom_plain": ("gocean", "nemolite2d_alg_mod.f90", 1, "plain"),
 }
 _INFO = {}
+_AST = {}                 # (api, alg, kernel index) -> fparser2 tree of the kernel source
+USE_AST_CACHE = [True]    # switched off by World.setup if cached and uncached kernels ever differ
 
 
-def fresh(variant):
+def fresh(variant, cache=True):
     """A fresh PSy object whose chosen kernel has really been transformed (modified flag set by
-    the transformation).  Returns (psy, kern)."""
+    the transformation).  Returns (psy, kern).
+
+    Speed only: re-parsing the kernel source with fparser2 for every new kernel object costs 10x
+    everything else, so the parse tree of the (unchanged) kernel source is kept per variant and
+    handed to the new CodedKern through its `_fp2_ast` slot (what CodedKern.ast itself fills and
+    returns).  PSyIR and everything the protocol touches are built anew for every object.  If the
+    slot disappears this silently degrades to re-parsing."""
     from psyclone.configuration import Config
     from psyclone.parse.algorithm import parse
     from psyclone.psyGen import PSyFactory
@@ -59,6 +67,9 @@ def fresh(variant):
         _INFO[(api, alg)] = parse(str(TESTS / sub / alg), api=api)[1]
     psy = PSyFactory(api, distributed_memory=False).create(_INFO[(api, alg)])
     kern = psy.invokes.invoke_list[0].schedule.coded_kernels()[ki]
+    use_cache = cache and USE_AST_CACHE[0] and hasattr(kern, "_fp2_ast")
+    if use_cache and (api, alg, ki) in _AST:
+        kern._fp2_ast = _AST[(api, alg, ki)]
     with contextlib.redirect_stdout(io.StringIO()):
         if trans == "acc":
             from psyclone.transformations import ACCRoutineTrans
@@ -70,6 +81,8 @@ def fresh(variant):
             kern.get_kernel_schedule()
             kern.modified = True
     assert kern.modified
+    if use_cache and getattr(kern, "_fp2_ast", None) is not None:
+        _AST.setdefault((api, alg, ki), kern._fp2_ast)
     return psy, kern
 
 
@@ -330,7 +343,7 @@ def coq_fs(fs):
 
 
 def coq_delta(dl):
-    return core.coq_list("((%d, %d), %s)" % (f[0], f[1], "None" if c is None else "Some (%s)" % coq_content(c))
+    return core.coq_list("((%d,%d),%s)" % (f[0], f[1], "None" if c is None else "Some(%s)" % coq_content(c))
                          for f, c in dl)
 
 
@@ -385,7 +398,7 @@ class World:
         for v in VARIANTS:
             d = self.newdir()
             cfg._kernel_output_dir, cfg._kernel_naming = str(d), "multiple"
-            _, kern = fresh(v)
+            _, kern = fresh(v, cache=False)
             om, on = kern.module_name, kern.name
             kern.rename_and_write()
             files = sorted(os.listdir(d))
@@ -400,6 +413,18 @@ class World:
             self.ref[v] = {"mod": om, "name": on, "base": base, "rout": rout, "text0": text,
                            "file0": files[0], "fp": p["fingerprint"]}
             shutil.rmtree(d)
+        # self-check of the parse-tree cache: twice per variant (fill, then reuse), same bytes
+        for v in VARIANTS:
+            for _ in range(2):
+                d = self.newdir()
+                cfg._kernel_output_dir = str(d)
+                _, kern = fresh(v)
+                kern.rename_and_write()
+                same = [(d / f).read_text() for f in os.listdir(d)] == [self.ref[v]["text0"]]
+                shutil.rmtree(d)
+                if not same:
+                    USE_AST_CACHE[0] = False
+                    _AST.clear()
         fps = sorted({r["fp"] for r in self.ref.values()})
         if len(fps) != len(self.ref):
             raise HarnessError("two variants produce the same kernel body")
@@ -561,12 +586,16 @@ def play(world, cfg, schedule, mode="rw", drain=True):
 def coq_case(world, res):
     cfg = res.cfg
     pre = [((world.canon.sid(b), i), world.canon.content(world.pre_text(k))) for b, i, k in cfg.pre]
-    return "(%s, %s, %s, %s, %s, %s)" % (
+    steps = []
+    for k, (a, dl) in enumerate(zip(res.sched, res.deltas)):
+        before, after = res.robs[k], res.robs[k + 1]
+        rd = [(i, after[i]) for i in range(len(after)) if i == a or after[i] != before[i]]
+        steps.append("(%d,%s,%s)" % (a, coq_delta(dl), core.coq_list(
+            "(%d,(%s,%s))" % (i, coq_pc(p), "None" if y is None else "Some %d" % y) for i, (p, y) in rd)))
+    return "(%s, %s, %s, %s, %s, %s, %s)" % (
         "Multiple" if cfg.scheme == "multiple" else "Single", coq_fs(sorted(pre)),
         core.coq_list(world.kernel_term(v) for v in cfg.runs), coq_runobs(res.robs[0]),
-        core.coq_list("(%d, %s, %s)" % (a, coq_delta(dl), coq_runobs(ro))
-                      for a, dl, ro in zip(res.sched, res.deltas, res.robs[1:])),
-        coq_fs(world.canon.fs(res.snaps[-1])))
+        core.coq_list(steps), coq_runobs(res.robs[-1]), coq_fs(world.canon.fs(res.snaps[-1])))
 
 
 def replay_of(res):
@@ -918,7 +947,12 @@ def run_names(ctx, world, ci):
             kern.rename_and_write()
             new = sorted(set(os.listdir(d)) - before)
             if len(new) != 1:
-                raise HarnessError("rename_and_write(%s,%s) created %r" % (mod, sub, new))
+                changed = sorted(n for n in before if (d / n).read_text() != "some code\n")
+                prop_bad.append(("run-did-not-write-exactly-one-fresh-file",
+                                 {"module_name": mod, "name": sub, "files_before": sorted(before),
+                                  "new_files": new, "preexisting_files_changed": changed}, None))
+                shutil.rmtree(d)
+                continue
             text = (d / new[0]).read_text()
             mods = re.findall(r"(?im)^\s*module\s+(\w+)\s*$", text)
             m = FNAME_RE.match(new[0])
@@ -1062,6 +1096,7 @@ def run(ctx):
 def _run(ctx, pool, world, ok, rep, t0):
     ci = names_ci()
     ctx.notes["new_name_case_insensitive"] = ci
+    ctx.notes["kernel_parse_tree_cache_in_harness"] = USE_AST_CACHE[0]
 
     problems = []          # (reason, detail, key, replay)
     tasks = []
@@ -1093,13 +1128,8 @@ def _run(ctx, pool, world, ok, rep, t0):
     # The numbers of schedules are fixed per tier (never by the clock).
     core_pairs = (["tk_acc", "tk_acc"], ["tk_acc", "tk_const"])
     quick_pairs = core_pairs + (["tk_acc", "qr_acc"], ["cu_acc", "cu_acc"])
-    # --- 2 runs, every schedule at the file-system-visible points
-    for cfg in two:
-        if not ctx.thorough and (len(cfg.pre) > 1 or cfg.runs not in quick_pairs):
-            continue
-        scheds, complete = all_schedules(world, cfg, True, 5000)
-        add_all("2 runs, fs-visible points", cfg, scheds, complete, "2-macro")
-    # --- 2 runs, every schedule at every atomic point
+    # --- 2 runs, every schedule at every atomic point (open, rename, write, close, read-back)
+    full_done = set()
     for cfg in two:
         if len(cfg.pre) > 1 or cfg.runs[0] == "mom_plain":
             continue
@@ -1108,27 +1138,39 @@ def _run(ctx, pool, world, ok, rep, t0):
             continue
         scheds, complete = all_schedules(world, cfg, False, 5000)
         if ctx.thorough:
-            cap = 200
+            cap = 120
         else:           # quick: single scheme and the empty-directory identical pair in full, others sampled
-            cap = 120 if (cfg.scheme == "single" or (not cfg.pre and cfg.runs == core_pairs[0])) else 24
+            cap = 120 if (cfg.scheme == "single" or (not cfg.pre and cfg.runs == core_pairs[0])) else 12
         if len(scheds) > cap:
             rng.shuffle(scheds)
             scheds, complete = scheds[:cap], False
+        if complete:
+            full_done.add(cfg.key())
         add_all("2 runs, every atomic point", cfg, scheds, complete, "2-full")
+    # --- 2 runs, every schedule at the file-system-visible points (a subset of the above, so
+    #     skipped where the full enumeration has been played)
+    for cfg in two:
+        if cfg.key() in full_done:
+            continue
+        if not ctx.thorough and (len(cfg.pre) > 1 or cfg.runs not in quick_pairs or
+                                 (cfg.runs not in core_pairs and cfg.pre and cfg.pre[0][2] == "empty")):
+            continue
+        scheds, complete = all_schedules(world, cfg, True, 5000)
+        add_all("2 runs, fs-visible points", cfg, scheds, complete, "2-macro")
     # --- 3 runs at the file-system-visible points: exhaustive up to 700 schedules per configuration
     #     in the thorough tier, sampled otherwise
     for cfg in three:
         scheds, complete = all_schedules(world, cfg, True, 20000)
         if not ctx.thorough or len(scheds) > 700:
             rng.shuffle(scheds)
-            scheds, complete = scheds[:ctx.pick(6, 200)], False
+            scheds, complete = scheds[:ctx.pick(3, 120)], False
         add_all("3 runs, fs-visible points", cfg, scheds, complete, "3-macro")
     # --- 3 runs, seeded random schedules at every atomic point; some through the whole psy.gen
-    for k in range(ctx.pick(60, 1000)):
+    for k in range(ctx.pick(40, 600)):
         cfg = rng.choice(three)
         add(cfg, random_schedule(world, cfg, rng), "3-random")
     lf = [c for c in three + two if all(v.startswith(("tk", "qr")) for v in c.runs)]
-    for k in range(ctx.pick(10, 100)):
+    for k in range(ctx.pick(8, 60)):
         cfg = rng.choice(lf)
         add(cfg, random_schedule(world, cfg, rng), "gen-random", mode="gen")
 
@@ -1164,7 +1206,15 @@ def _run(ctx, pool, world, ok, rep, t0):
     header = "From PV Require Import C29.Model."
     cases = [r["case"] for r in results]
     failing = ctx.coq_eval_failing(header, "case", "check_case", cases, shard=400)
-    nm_fail, nm_meta, nn_fail, nn_meta, nprop = run_names(ctx, world, ci)
+    names_error = None
+    try:
+        nm_fail, nm_meta, nn_fail, nn_meta, nprop = run_names(ctx, world, ci)
+    except Exception as err:            # pylint: disable=broad-except
+        # keep going: what the schedules already showed must still be reported with its input
+        import traceback
+        names_error = traceback.format_exc()
+        ctx.log("names stage raised %s: %s" % (type(err).__name__, err))
+        nm_fail, nm_meta, nn_fail, nn_meta, nprop = [], [], [], [], []
     for reason, detail, key in nprop:
         problems.append((reason, detail, key, {"names": detail, "how_to_replay":
                          "kern._module_name, kern._name = names; kern.rename_and_write() as in "
@@ -1196,6 +1246,8 @@ def _run(ctx, pool, world, ok, rep, t0):
         broken.append("proof obligations of Properties/C29.v")
     if failing:
         broken.append("correspondence C29.Model.step = rename_and_write (step-by-step directory and run states)")
+    if names_error:
+        broken.append("names stage of the harness raised: " + names_error[-600:])
     if nm_fail:
         broken.append("correspondence C29.NamesModel.new_name = CodedKern._new_name")
     if nn_fail:
@@ -1230,4 +1282,5 @@ def replay(ctx, path):
         print("run", r.rid, r.variant, r.outcome, r.error and r.error[:100], r.kern.module_name, r.kern.name, r.events)
     for b in evaluate(world, res):
         print("PROPERTY FAILS:", b)
-    return ctx.finish()
+    shutil.rmtree(ctx.scratch, ignore_errors=True)      # (no evidence is written by a replay)
+    return 0
